@@ -171,6 +171,20 @@ def _gen_from(rnd):
             head = "shut%d" % i
             prog.insert(rnd.randint(0, len(prog)), ["y", rev + " " + head])
             acl = [RA.acl_rule([head], cd=1), RA.acl_rule([rev, head])] + acl
+        if rnd.chance(12):
+            # two overlapping sibling rules with DIFFERENT children: the concrete-key rule allows a line that the wildcard rule does not;
+            # the block matching both comes first, then a block matching the wildcard rule only, with that very line (uncovered there)
+            h = "ovl%d" % i
+            # rule 1 keys: letters then optional digits; rule 2 keys: optional letters then digits; 'a1' is matched by both, 'a' by rule 1
+            # only, '7' by rule 2 only; 'extra1' is allowed under rule 1 only, 'extra2' under rule 2 only
+            only1 = ["b", [h, "a"], [["y", "extra2 x"]]]      # uncovered: extra2 is rule 2's child
+            only2 = ["b", [h, "7"], [["y", "extra1 x"]]]      # uncovered: extra1 is rule 1's child
+            later = [only1, only2] if rnd.chance(50) else [only2, only1]
+            blocks = [["b", [h, "a1"], [["y", "extra1 x"], ["y", "extra2 x"]]]] + later
+            pos = rnd.randint(0, len(prog))
+            prog[pos:pos] = blocks
+            acl = acl + [RA.acl_rule([h, "*/[a-z]+[0-9]*/"], [RA.acl_rule(["extra1", "~"])]),
+                         RA.acl_rule([h, "*/[a-z]*[0-9]+/"], [RA.acl_rule(["extra2", "~"])])]
         if rnd.chance(35):
             # a rule for lines this generator emits only under other circumstances (nothing of the kind is yielded this time)
             acl = acl + [RA.acl_rule(["zeta", rnd.choice(["~", "*"])], cd=rnd.choice([None, None, 1]))]
